@@ -52,6 +52,11 @@ def cells(tier, seed):
     for prog in (['fromAd'], ['fromAd', 'A>B'], ['A>B', 'fromAd']):
         out.append({'id': f"prog/{','.join(prog)}/k1/u0", 'fn': 'h_flows', 'round': 'lite', 'max_paths': 400,
                     'cost': 2 ** len(prog), 'gens': 200, 'params': {'prog': prog, 'split': 1, 'units': units[:2]}})
+    # the declared container A carries the name of the solvent substance of a create_solution step
+    for prog in (['solW', 'A>B'], ['A>B', 'solW'], ['solW', 'A>Pr']):
+        out.append({'id': f"samename/{','.join(prog)}/k1/u0", 'fn': 'h_flows', 'round': 'lite', 'max_paths': 400,
+                    'cost': 2 ** len(prog), 'gens': 200, 'params': {'prog': prog, 'split': 1, 'units': units[:2],
+                                                                    'a_name': 'water'}})
     return out
 
 
